@@ -173,8 +173,15 @@ int main(void) {
 #endif
 	__typeof__(a COP b) ref = defined ? (a COP b) : 0;
 	struct expr *r;
+#ifdef PTRMODE
+	/* both operands are pointers to int (addresses symbolic); the pointer type objects come fresh from the allocator, so every field the
+	 * back end consults must have been initialised by mkpointertype (C20: no output bit may depend on allocator garbage) */
+	struct type *pt1 = mkpointertype(&typeint, QUALNONE), *pt2 = mkpointertype(&typeint, QUALNONE);
+	l = mkconstexpr(pt1, (unsigned long long)a); r = mkconstexpr(pt2, (unsigned long long)b);
+#else
 	MKCONST(l, lt_t, LT, a);
 	MKCONST(r, rt_t, RT, b);
+#endif
 	e = mkbinaryexpr(&loc, TOP, l, r);
 	struct type *want_type = ctype[WANT];     /* computed by the generator from C11 6.3.1.1 / 6.3.1.8 (LP64), see props/exprlib.py */
 #if OPK <= 6 || (OPK >= 13 && OPK <= 15)    /* CBMC types comparison/logical results as _Bool internally: no cross-check there */
@@ -186,9 +193,11 @@ int main(void) {
 	if (e->type != want_type) { CHECK(0, "expression has the type C11 assigns it (usual arithmetic conversions / promotions)"); PATH_END(); }
 	e->type = want_type;
 #ifndef CASTMODE
+#ifndef PTRMODE
 	{ struct expr *cl = e->u.binary.l, *cr = e->u.binary.r;
 	  if (cl->type != ctype[LCONV] || cr->type != ctype[RCONV]) { CHECK(0, "operands are converted to the types C11 prescribes for this operator"); PATH_END(); }
 	  cl->type = ctype[LCONV]; cr->type = ctype[RCONV]; }
+#endif
 #endif
 #ifdef ONLY_TYPE
 	WITNESS_POINT();
